@@ -235,7 +235,7 @@ def run(rep, tier, pool, variants=("shipped",)):
     for variant in variants:
         res = pool.call("harness.props.c10:check_one", [(s, m, variant) for _, s, m in cases], timeout=60)
         for (kind, src, mode), o in zip(cases, res):
-            if o.get("skip") or o.get("k") in ("hang", "crash", "worker-exc"):
+            if o.get("skip") or o.get("k") in ("hang", "crash", "worker-exc", "not-run"):
                 rep.case(src, False)
                 rep.count(f"{kind}:skip-{o.get('skip') or o.get('k')}")
                 continue
